@@ -12,7 +12,7 @@ EXTENDS JMES, Json, Toks
 CONSTANTS Emit, Prop, Lengths, Seeds
 
 VARIABLES inst    \* [n, pat, str, seed]
-Init == inst \in [n : Lengths, pat : 1..4, str : BOOLEAN, seed : Seeds]
+Init == inst \in [n : Lengths, pat : 1..5, str : BOOLEAN, seed : Seeds]
 Next == UNCHANGED inst
 Spec == Init /\ [][Next]_inst
 
@@ -24,6 +24,7 @@ KeyNum(n, pat, seed, i) ==
     [] pat = 2 -> i % 2                              \* two values alternating
     [] pat = 3 -> (n - i) \div 3                     \* descending blocks of three
     [] pat = 4 -> Lcg(seed, i) % 5                   \* pseudo-random with many ties
+    [] pat = 5 -> Lcg(seed + 1, i) % 10              \* pseudo-random over every glyph
 \* string keys across the Unicode range, in code point order by index
 Glyph == <<<<36>>, <<97>>, <<127>>, <<233>>, <<2048>>, <<65535>>, <<65536>>, <<128512>>, <<97, 97>>, <<97, 233>>>>
 \* sorted order of Glyph by code points: $ < a < aa < a,e-acute < DEL < e-acute < U+0800 < U+FFFF < U+10000 < emoji
